@@ -194,9 +194,35 @@ impl FilterSpec {
     }
 }
 
+/// tag of the first element flagged `hit` in document order
+pub fn first_hit_tag(nodes: &[Node]) -> Option<String> {
+    for n in nodes {
+        if let Node::Elem(e) = n {
+            if e.hit {
+                return Some(e.tag.clone());
+            }
+            if let Some(t) = first_hit_tag(&e.children) {
+                return Some(t);
+            }
+        }
+    }
+    None
+}
+
+fn has_hit_with_tag(n: &Node, tag: Option<&str>) -> bool {
+    match n {
+        Node::Elem(e) => (e.hit && tag.map(|t| t == e.tag).unwrap_or(true)) || e.children.iter().any(|c| has_hit_with_tag(c, tag)),
+        _ => false,
+    }
+}
+
 fn selector_hits(n: &Node, selector: &str) -> bool {
-    // the only selectors generated are `.sel-hit` (matches elements flagged `hit`) and `.no-such-class`
-    selector.contains("sel-hit") && n.has_hit()
+    // generated selectors: `.sel-hit`, `<type>.sel-hit` (element type + class) and `.no-such-class`
+    match selector.strip_suffix(".sel-hit") {
+        Some("") => has_hit_with_tag(n, None),
+        Some(ty) => has_hit_with_tag(n, Some(ty)),
+        None => false,
+    }
 }
 
 /// Apply one filter to the forest: descend along direct children named like the path; act on every
